@@ -28,7 +28,7 @@ func runC01(c *Ctx) {
 	r.Rule("N4", "every operation type the front end can produce has a handler", 100)
 	r.Rule("N5", "result streams are built and walked front to back", 1)
 	c.P.buildSSA()
-	checkN1(c)
+	checkN1(c, "N1")
 	checkN2(c)
 	checkN3(c)
 	checkN4(c)
@@ -36,6 +36,9 @@ func runC01(c *Ctx) {
 	ruleS6(c, "N6")
 	checkN7(c)
 	checkN8(c)
+	checkN10(c)
+	r.Rule("N9", "`,` hands on every result of both operands", 2)
+	ruleNoFilter(c, "N9", "unionOperator", map[string]bool{"PushBack": true}, nil, "a result of one operand of `,` is dropped because of what it is (its key, its parent …): `a, b` is no longer the results of a followed by the results of b")
 }
 
 // checkN7: an operator appends to and removes from lists it made itself (or
@@ -337,7 +340,7 @@ func isOwnContext(fn *ssa.Function, v ssa.Value) bool {
 	return false
 }
 
-func checkN1(c *Ctx) {
+func checkN1(c *Ctx, rule string) {
 	r := c.R
 	fn := c.libFunc("pipeOperator")
 	if fn == nil {
@@ -362,13 +365,13 @@ func checkN1(c *Ctx) {
 	recv, list, ok := childContextOf(rhs.Call.Args[1])
 	switch {
 	case !ok:
-		r.Finding("N1", key, c.P.pos(rhs.Pos()), "the right side of `|` is not evaluated in context.ChildContext(<left results>): either it does not see the left side's results or it inherits the left side's scope")
+		r.Finding(rule, key, c.P.pos(rhs.Pos()), "the right side of `|` is not evaluated in context.ChildContext(<left results>): either it does not see the left side's results or it inherits the left side's scope")
 	case !isOwnContext(fn, recv):
-		r.Finding("N1", key, c.P.pos(rhs.Pos()), "the context of the right side of `|` is derived from "+exprOfValue(recv)+", not from the operator's own context")
+		r.Finding(rule, key, c.P.pos(rhs.Pos()), "the context of the right side of `|` is derived from "+exprOfValue(recv)+", not from the operator's own context")
 	case !matchingNodesOf(list, lhs):
-		r.Finding("N1", key, c.P.pos(rhs.Pos()), "the right side of `|` does not run on the left side's results ("+exprOfValue(list)+")")
+		r.Finding(rule, key, c.P.pos(rhs.Pos()), "the right side of `|` does not run on the left side's results ("+exprOfValue(list)+")")
 	default:
-		r.Discharge("N1", key, c.P.pos(rhs.Pos()), "context.ChildContext(lhs.MatchingNodes)")
+		r.Discharge(rule, key, c.P.pos(rhs.Pos()), "context.ChildContext(lhs.MatchingNodes)")
 	}
 	// (b) what the pipe returns after evaluating the right side
 	key = "pipeOperator/result"
@@ -382,17 +385,15 @@ func checkN1(c *Ctx) {
 			continue // error exit
 		}
 		n++
-		_, l, isChild := childContextOf(ret.Results[0])
-		if !(isChild && matchingNodesOf(l, rhs)) {
-			if ex, isEx := ret.Results[0].(*ssa.Extract); !(isEx && ex.Tuple == ssa.Value(rhs)) {
-				okRet = false
-			}
+		recvR, l, isChild := childContextOf(ret.Results[0])
+		if !(isChild && matchingNodesOf(l, rhs) && isOwnContext(fn, recvR)) {
+			okRet = false
 		}
 	}
 	if n > 0 && okRet {
-		r.Discharge("N1", key, c.P.pos(fn.Pos()), "the pipe's results are the right side's results")
+		r.Discharge(rule, key, c.P.pos(fn.Pos()), "the pipe returns its own context with the right side's results: context.ChildContext(rhs.MatchingNodes)")
 	} else {
-		r.Finding("N1", key, c.P.pos(fn.Pos()), "a successful exit of pipeOperator after the right side does not return the right side's results")
+		r.Finding(rule, key, c.P.pos(fn.Pos()), "a successful exit of pipeOperator after the right side does not return context.ChildContext(rhs.MatchingNodes): either other results, or the right side's own Context (its variables, its writable flag) escapes into the enclosing expression")
 	}
 }
 
@@ -747,4 +748,111 @@ func checkN5(c *Ctx) {
 		}
 	}
 	r.Discharge("N5", "module/front-to-back", "-", fmt.Sprintf("no other PushFront / InsertBefore / Move* / Back() / Prev() on a list in pkg/yqlib (%d accepted functions)", n))
+}
+
+// checkN10: a variable is bound on a context the operator derived itself
+// (ChildContext / Clone copy the variable table), never on the context it was
+// given: Context is passed by value but its Variables map is shared, so a
+// binding made on the received context is visible to the caller after the
+// scope of `… as $x | body` has ended.
+var n10Accepted = map[string]string{
+	"yqlib.decodeOperator": "binds a bookkeeping name (\"decoded: <key>\") that no expression can spell; nothing reads it back through `$`",
+}
+
+func checkN10(c *Ctx) {
+	r := c.R
+	r.Rule("N10", "variables are bound on a derived context, not on the one received", 3)
+	n := 0
+	for _, fn := range c.moduleFuncs() {
+		if !strings.HasPrefix(funcKey(fn), "yqlib.") {
+			continue
+		}
+		eachInstr(fn, func(ins ssa.Instruction) {
+			call, ok := ins.(*ssa.Call)
+			if !ok || call.Call.StaticCallee() == nil || call.Call.StaticCallee().Name() != "SetVariable" || len(call.Call.Args) == 0 {
+				return
+			}
+			if structNameOfPtr(call.Call.Args[0].Type()) != "Context" {
+				return
+			}
+			n++
+			key := fmt.Sprintf("%s/SetVariable(%s)", funcKey(fn), exprOfValue(call.Call.Args[0]))
+			owner, why := variablesOwner(fn, call.Call.Args[0], 0)
+			switch {
+			case owner != "foreign":
+				r.Discharge("N10", key, c.P.pos(call.Pos()), "bound on a context this function built or derived")
+			case n10Accepted[funcKey(fn)] != "":
+				r.Discharge("N10", key, c.P.pos(call.Pos()), "accepted: "+n10Accepted[funcKey(fn)])
+			default:
+				r.Finding("N10", key, c.P.pos(call.Pos()), "the variable is bound on "+why+": the Variables map is shared with the caller, so the binding outlives its scope (an inner `as $x` overwrites the outer $x for the rest of the expression)")
+			}
+		})
+	}
+	if n == 0 {
+		r.Fatal("anchor moved: no SetVariable call on a Context found")
+	}
+}
+
+// variablesOwner: whose Variables map does the Context value (or address) v carry?
+// "own": built by ChildContext / SingleChildContext / Clone… in this function (they
+// allocate a new map) or a Context literal; "foreign": the context parameter of an
+// evaluation, or the Context an evaluation returned (a handler may return the context
+// it was given: `.` does).
+func variablesOwner(fn *ssa.Function, v ssa.Value, d int) (string, string) {
+	if d > 8 {
+		return "", "deep"
+	}
+	switch x := v.(type) {
+	case *ssa.Parameter:
+		if namedTypeName(x.Type()) == "Context" || structNameOfPtr(x.Type()) == "Context" {
+			for _, p := range fn.Params {
+				if structNameOfPtr(p.Type()) == "dataTreeNavigator" {
+					return "foreign", "the context this operator was given"
+				}
+			}
+			return "out-param", "a Context handed in by a caller that is not an evaluation"
+		}
+	case *ssa.Extract:
+		if call, ok := x.Tuple.(*ssa.Call); ok && isGetMatching(call) {
+			return "foreign", "the Context returned by evaluating " + exprOfValue(call.Call.Args[2]) + " (which may be the very context that was passed in)"
+		}
+	case *ssa.Call:
+		if callee := x.Call.StaticCallee(); callee != nil {
+			switch callee.Name() {
+			case "ChildContext", "SingleChildContext", "SingleReadonlyChildContext", "Clone", "ReadOnlyClone", "WritableClone":
+				return "own", "derived by " + callee.Name() + " (new variable table)"
+			}
+		}
+	case *ssa.UnOp:
+		return variablesOwner(fn, x.X, d+1)
+	case *ssa.Alloc:
+		if x.Referrers() != nil {
+			worst, why := "own", "a local context"
+			n := 0
+			for _, ref := range *x.Referrers() {
+				if st, ok := ref.(*ssa.Store); ok && st.Addr == ssa.Value(x) {
+					n++
+					o, w := variablesOwner(fn, st.Val, d+1)
+					if o == "foreign" {
+						return o, w
+					}
+					if o != "own" {
+						worst, why = o, w
+					}
+				}
+			}
+			if n > 0 {
+				return worst, why
+			}
+			return "own", "a Context literal"
+		}
+	case *ssa.Phi:
+		for _, e := range x.Edges {
+			if o, w := variablesOwner(fn, e, d+1); o == "foreign" {
+				return o, w
+			}
+		}
+		return "own", "every incoming context is derived here"
+	}
+	return "", exprOfValue(v)
 }
